@@ -107,6 +107,11 @@ func (e *DocumentError) preparation() {
 		panic("The file is not specified")
 	}
 	e.length = bytes.Index(len(e.file.Content()))
+	if e.length != 0 && e.index >= e.length {
+		// The position may come from another file (an added type rendered against
+		// the root file): keep it inside this content.
+		e.index = e.length - 1
+	}
 	e.detectNewLineSymbol()
 	e.prepared = true
 }
@@ -218,6 +223,10 @@ func (e *DocumentError) SourceSubString() string {
 }
 
 func (e *DocumentError) pointerToTheErrorCharacter() string {
+	if e.file == nil || len(e.file.Content()) == 0 {
+		return "^"
+	}
+
 	e.preparation()
 
 	content := e.file.Content()
@@ -225,6 +234,11 @@ func (e *DocumentError) pointerToTheErrorCharacter() string {
 	spaces := content[begin:].CountSpacesFromLeft()
 
 	i := int(e.index) - int(begin) - spaces
+	if i < 0 {
+		// The position lies inside the leading blanks of the line, which are not
+		// shown.
+		i = 0
+	}
 	return strings.Repeat("-", i) + "^"
 }
 
